@@ -223,7 +223,24 @@ func (checker *Checker) enforceViewAssignment(statement ast.Statement, target as
 	if baseVariable.DeclarationKind == common.DeclarationKindSelf {
 		if checker.functionActivations.Current().InitializationInfo == nil {
 			checker.ObserveImpureOperation(statement)
+			return
 		}
+
+		// Writing through a reference is not a write to the value being constructed,
+		// even if the reference is stored in it, e.g. `self.ref[0] = 1`.
+		// Storing a reference is fine though, e.g. `self.refs[0] = ref`:
+		// for an index expression, the first type in the access chain is the type of the assigned element.
+		traversedTypes := accessChain
+		if _, isIndexExpression := target.(*ast.IndexExpression); isIndexExpression && len(traversedTypes) > 0 {
+			traversedTypes = traversedTypes[1:]
+		}
+		for _, t := range traversedTypes {
+			if _, isReference := t.(*ReferenceType); isReference {
+				checker.ObserveImpureOperation(statement)
+				return
+			}
+		}
+
 		return
 	}
 
